@@ -80,7 +80,7 @@ std::map<IndexCombination4,std::vector<ComplexType> > TwoParticleGFContainer::co
     for (size_t p=0; p<comm.size(); p++) {
         int color = int (1.0*p / color_size);
         proc_colors[p] = color;
-        color_roots[color]=p;
+        if (color_roots.find(color) == color_roots.end()) color_roots[color]=p; // the reduced data live on the first rank of a colour
     }
     for (size_t i=0; i<ncomponents; i++) {
         int color = i*ncolors/ncomponents;
